@@ -166,6 +166,9 @@ def probe_supported(it, zeroize):
             return False        # a second attribute-macro invocation: outside the single-invocation model
     reprs = [i for a in it['attrs'] if a[0] == 'Repr' and a[1][0] == 'Idents' for i in a[1][1]]
     ints = [r for r in reprs if r not in ('C', 'Rust')]
+    INT_REPRS = ('u8', 'u16', 'u32', 'u64', 'u128', 'usize', 'i8', 'i16', 'i32', 'i64', 'i128', 'isize')
+    if any(r not in INT_REPRS for r in ints):
+        return False            # rustc rejects the representation itself (E0517 / E0552), whatever the macro does with it
     if len(set(ints)) > 1:
         return False            # rustc: conflicting representation hints
     if k[0] == 'Enum' and not ints and any(v['disc'] is not None for v in k[1]) and any(v['shape'] != 'Unit' for v in k[1]):
